@@ -811,10 +811,14 @@ func convGuards(c *an.Ctx, rule string, only []string) {
 			key := f.Name + "/Convert"
 			// the guard is <value>.Type().ConvertibleTo(<target>) for the very value and target of the Convert
 			// (ConvertibleTo is not symmetric: the swapped form proves nothing)
-			want := ""
+			want, wantAssignable := "", ""
 			if rk, ok := pr.X.Key(an.Receiver(call)); ok && len(call.Args) == 1 {
 				if tk, ok := pr.X.Key(call.Args[0]); ok {
 					want = an.PlainKey(rk) + ".Type().ConvertibleTo(" + an.PlainKey(tk) + ")"
+					// a type whose values are assignable to the target is convertible to it; the test may be
+					// written from the target's side: <target>.AssignableTo(<value>.Type()) for identical
+					// underlying types (a func type and the named type declared from it)
+					wantAssignable = an.PlainKey(rk) + ".Type().AssignableTo(" + an.PlainKey(tk) + ")"
 				}
 			}
 			guarded := len(pr.At[call]) > 0
@@ -822,8 +826,15 @@ func convGuards(c *an.Ctx, rule string, only []string) {
 				g := false
 				for k, v := range st.Facts {
 					pk := an.PlainKey(k)
-					if v && want != "" && pk == want {
+					if v && want != "" && (pk == want || pk == wantAssignable) {
 						g = true
+					}
+					if v && len(call.Args) == 1 {
+						if rk, ok1 := pr.X.Key(an.Receiver(call)); ok1 {
+							if tk, ok2 := pr.X.Key(call.Args[0]); ok2 && pk == an.PlainKey(tk)+".AssignableTo("+an.PlainKey(rk)+".Type())" && sameUnderlying(f, an.Receiver(call), call.Args[0]) {
+								g = true
+							}
+						}
 					}
 					// []byte-kind → string is always convertible
 					if v && strings.Contains(pk, "reflect.Uint8 == ") && strings.Contains(pk, ".Elem().Kind()") {
@@ -835,7 +846,11 @@ func convGuards(c *an.Ctx, rule string, only []string) {
 				}
 			}
 			if !guarded {
-				c.Bad(rule, key, call.Pos(), nil, "%s calls %s without having established ConvertibleTo on that value: reflect panics with a string, which Runtime.recover re-panics out of Execute", f.Name, an.Str(call))
+				var tr []string
+				if len(pr.At[call]) > 0 {
+					tr = an.Facts(pr.At[call][0])
+				}
+				c.Bad(rule, key, call.Pos(), tr, "%s calls %s without having established ConvertibleTo on that value: reflect panics with a string, which Runtime.recover re-panics out of Execute", f.Name, an.Str(call))
 				continue
 			}
 			// the result must be used: assigned to something that is read afterwards, not dropped
@@ -855,6 +870,30 @@ func convGuards(c *an.Ctx, rule string, only []string) {
 						used = true // stored through a pointer / into a field
 					}
 				}
+			}
+			// used on the spot: the converted value is an operand of a larger expression (v.Convert(t).Interface() …)
+			for _, enc := range an.EnclosingStmts(f, call) {
+				ast.Inspect(enc, func(m ast.Node) bool {
+					switch pn := m.(type) {
+					case *ast.SelectorExpr:
+						if an.Unparen(pn.X) == ast.Expr(call) {
+							used = true
+						}
+					case *ast.CallExpr:
+						for _, a := range pn.Args {
+							if an.Unparen(a) == ast.Expr(call) {
+								used = true
+							}
+						}
+					case *ast.ReturnStmt:
+						for _, r := range pn.Results {
+							if an.Unparen(r) == ast.Expr(call) {
+								used = true
+							}
+						}
+					}
+					return true
+				})
 			}
 			// converted into another variable while the unconverted one is still read afterwards
 			stale := ""
@@ -1020,4 +1059,17 @@ func c14table(c *an.Ctx) {
 			c.Check(bad == "", "C14.table", "builtin:len/go-len", f.Pos(), "len answers with Go's len (reflect.Value.Len) for every sized kind", bad+": len() no longer computes what Go's len computes")
 		}
 	}
+}
+
+// sameUnderlying: target is a package-level reflect.Type variable initialised from reflect.TypeOf(T(nil))
+// with T a named func type — the only values assignable *from* it to which the converse also holds are
+// those with the identical underlying type, for which Convert never panics.  (Conservative: it only
+// recognises the target being such a variable; the value side is whatever passed the AssignableTo test.)
+func sameUnderlying(f *an.Fn, value, target ast.Expr) bool {
+	id, ok := an.Unparen(target).(*ast.Ident)
+	if !ok {
+		return false
+	}
+	v, ok := an.ObjOf(f.Info(), id).(*types.Var)
+	return ok && v.Pkg() != nil && v.Parent() == v.Pkg().Scope() && an.TypeName(v.Type()) == "reflect.Type"
 }
